@@ -110,3 +110,11 @@ impl Adam {
         self.t = 0;
     }
 }
+
+#[cfg(nuts_rs_verif)]
+impl Adam {
+    /// Verification hook: `(log_step, m, v, t)`.
+    pub fn verif_fields(&self) -> (f64, f64, f64, u64) {
+        (self.log_step, self.m, self.v, self.t)
+    }
+}
